@@ -80,6 +80,28 @@ CHECKS["C07"] = dict(
     technique="TLA+ state machine of the call sequence, recorded traces of the real code validated by TLC",
     design="7/C07")
 
+CHECKS["C10"] = dict(
+    category="fault_enumeration",
+    text="For every generated program the complete set of single-fault positions is enumerated (every rune index k in 0..len as the "
+         "first failing read), for a custom io.RuneScanner and for an io.Reader; Fault.tla states what each observation must "
+         "satisfy (delivered => errors.Is for both sources; not delivered => identical to the fault-free parse; never a nil error "
+         "with a different tree; no panic, no hang) and TLC validates every (program, k) record.",
+    note="Trusted: the fault-injecting sources of the driver (persistent failure from k on), the 5 s hang watchdog, Fault.tla, TLC. "
+         "Programs: derivations within the deviation budget, all programs with a case break among the 3-deviation ones, samples.",
+    technique="exhaustive single-fault enumeration per program, observations validated by TLC against a TLA+ predicate",
+    design="7/C10")
+CHECKS["C08"] = dict(
+    category="model_checking",
+    text="The here-document focus of ShellGrammar.tla (start symbol hdprog) lets TLC enumerate every combination of 1-3 pool entries "
+         "(bodies with empty first line, delimiter prefixes/suffixes, tabs, $x, $(..), backquotes, backslashes; quoted, unquoted, "
+         "partially quoted and <<- delimiters) at 12 kinds of redirection site; general ShellGen programs with here-documents are "
+         "added.  HdCheck.tla validates bodies and delimiter lines byte for byte in source order and the skeleton (expansion "
+         "parts iff unquoted delimiter).",
+    note="Trusted: the pool and site list of the grammar, the projection (printer.Fprint of Redir.Heredoc/Delim for the text), TLC. "
+         "Lexer/parser schedules for here-documents are exercised by C06.",
+    technique="TLA+ grammar focus enumerated by TLC, parser observations validated by TLC",
+    design="7/C08")
+
 NOT_APPLICABLE = {}
 
 ALL = ["C%02d" % i for i in range(1, 21)]
